@@ -5,7 +5,8 @@
    (a) all ISAs: decodability/injectivity of the encoding (c08_decodable, c08_tables_<arch>).
    (b) agreement with an independent reference decoder: RISC-V RV32I/M base classes ONLY (Spec/RV32Decode.v),
        bounded operand domain [rv_domain]; no reference decoder exists for the other ISAs. *)
-From PV Require Import Lib.Py Model.Encode Spec.RV32Decode Proofs.C08_encode Proofs.C08_tables Proofs.C08_rv.
+From PV Require Import Lib.Py Model.Encode Spec.RV32Decode Spec.RV32Encode Proofs.C08_encode Proofs.C08_tables Proofs.C08_rv.
+From PV Require Import Proofs.C08_rvspec Proofs.C08_rvfull Spec.RVCDecode Proofs.C08_rvc.
 From PV Require Import Gen.Tab_isa_riscv.
 From PV Require Import Gen.Tab_isa_riscv_rvc.
 From PV Require Import Gen.Tab_isa_arm.
@@ -137,11 +138,52 @@ Theorem c08_rv_reference_bounded : forall n d e,
 Proof. exact rv_reference_bounded. Qed.
 Print Assumptions c08_rv_reference_bounded.
 
+(* (b) UNBOUNDED.  Spec level (no ppci): the reference decoder inverts the reference field packing of every base
+   RV32I/M mnemonic for ALL register numbers 0..31 and ALL immediates of the format (R/I/L/S/B/U/J, incl. the
+   scrambled B and J offsets) *)
+Theorem c08_rv_spec_roundtrip : forall mn fs ks args,
+  rv_layout mn = Some (fs, ks) -> args_ok ks args -> decode_word (enc_fields fs args) = Some (mn, args).
+Proof. exact rv_roundtrip. Qed.
+Print Assumptions c08_rv_spec_roundtrip.
+
+(* ... and ppci: for every entry of table_riscv with an expectation (RV32I/M base mnemonic or pseudo-instruction)
+   outside the exported disagreement list, and ALL in-range operands, the bytes of the model encoder decode
+   (independent decoder) to the mnemonic and operands ppci prints.  Proved by reflection on the shape of the
+   descriptor (bit sources of the 32 word bits vs. the reference layout) + c08_rv_spec_roundtrip. *)
+Theorem c08_rv_reference : forall n d e,
+  nth_error table_riscv n = Some d -> ~ In n (map fst rvref_bad_riscv) -> rv_expectation d = Some e ->
+  forall ops, in_range d ops = true ->
+  exists bytes, encode_instr d ops = Ok bytes /\
+                RV32Decode.decode bytes = Some (fst e, map (apply_vsel ops) (snd e)).
+Proof. exact rv_reference. Qed.
+Print Assumptions c08_rv_reference.
+
 (* every exported disagreement is real (empty list = full agreement) *)
 Theorem c08_rv_reference_refuted : forall n ops, In (n, ops) rvref_bad_riscv ->
   in_range (desc_at table_riscv n) ops = true /\ rv_agrees (desc_at table_riscv n) ops = false.
 Proof. exact rv_reference_refuted. Qed.
 Print Assumptions c08_rv_reference_refuted.
+
+(* (b) compressed classes (RV32C, integer subset), against the independent decoder Spec/RVCDecode.v.  BOUNDED but
+   exhaustive: every entry of table_riscv_rvc ++ nonwf_riscv_rvc with an RVC expectation that is not in the exported
+   disagreement list, EVERY operand tuple of its architectural domain (each register a field can hold - x8..x15 for
+   register-prime fields - x every value of each immediate field; all domains <= 2^12 tuples) for which the
+   reference instruction exists (rvc_valid: c.mv rs2<>x0, c.jr/c.jalr rs1<>x0, c.lui rd not in {x0,x2}) *)
+Theorem c08_rvc_reference_bounded : forall n d e,
+  nth_error all_rvc n = Some d -> ~ In n (map fst rvcref_bad_riscv_rvc) -> rvc_expectation d = Some e ->
+  forall ops, In ops (rvc_domain d) -> rvc_valid (fst e) (map (apply_vsel ops) (snd e)) = true ->
+  exists bytes, encode_instr d ops = Ok bytes /\ decode16 bytes = Some (fst e, map (apply_vsel ops) (snd e)).
+Proof. exact rvc_reference_bounded. Qed.
+Print Assumptions c08_rvc_reference_bounded.
+
+(* the exported RVC disagreements (c.addi/c.andi sign bit, unencoded rs of c.slli/c.srli/c.srai/c.andi) and corner
+   tuples (c.mv rd,x0 = c.jr; c.jalr x0 = c.ebreak; c.lui x2 = c.addi16sp) are real: the encoder accepts the operands
+   and the reference reads the bytes differently *)
+Theorem c08_rvc_reference_refuted : forall n ops, In (n, ops) (rvcref_bad_riscv_rvc ++ rvcref_corner_riscv_rvc) ->
+  exists e bytes, rvc_expectation (desc_at all_rvc n) = Some e /\ encode_instr (desc_at all_rvc n) ops = Ok bytes /\
+                  decode16 bytes <> Some (fst e, map (apply_vsel ops) (snd e)).
+Proof. exact rvc_reference_refuted. Qed.
+Print Assumptions c08_rvc_reference_refuted.
 
 (* hypotheses are inhabited: add x5, x6, x7 *)
 Example c08_nonvacuous :
